@@ -2160,6 +2160,12 @@ class GroupBy:
         """
         from dask_expr._rolling import Rolling
 
+        if any(isinstance(key, Expr) for key in self.by):
+            # The keys are handed to every partition as keyword arguments
+            raise NotImplementedError(
+                "groupby(...).rolling() only supports grouping by column or index "
+                "names; assign the Series to group by as a column first."
+            )
         return Rolling(
             self.obj,
             window,
